@@ -169,6 +169,66 @@ def _scaling(rng, template):
     return out
 
 
+BOOL_FLAGS = ['record_desvars', 'record_responses', 'record_objectives', 'record_constraints',
+              'record_inputs', 'record_outputs', 'record_residuals']
+
+
+def _cross_owner_case(rng, j):
+    """Targeted family: the driver and the Problem (which share `Driver._get_vars_to_record`) get
+    COMPLEMENTARY recording flags and different patterns, so that any option read from the wrong owner
+    changes what is stored; optionally a group and its solver get complementary flags as well.  The
+    driver's options are set even when no recorder is attached to the driver."""
+    t = ['flat', 'sellar_gs', 'flat_arr', 'sellar_gs'][j % 4]
+    narrow = {'flat': ['x'], 'flat_arr': ['w'], 'sellar_gs': ['g.x']}[t]
+    po = {f: rng.random() < 0.5 for f in BOOL_FLAGS}
+    if j < 2:
+        # the shorthand flag alone decides whether objectives / constraints are stored
+        po.update(record_responses=(j == 0), record_objectives=False, record_constraints=False)
+    elif j < 4:
+        po.update(record_responses=(j == 2), record_objectives=rng.random() < 0.5)
+        po['record_constraints'] = not po['record_objectives']
+    po['record_outputs'] = True if j < 4 else po['record_outputs']
+    do = {f: not v for f, v in po.items()}
+    po['includes'] = rng.choice([[], narrow, ['nomatch']])
+    po['excludes'] = rng.choice([[], [], ['f']])
+    do['includes'] = ['*'] if rng.random() < 0.6 else rng.sample(PATTERNS, 2)
+    do['excludes'] = rng.choice([[], ['*y*'], narrow])
+    att = ['problem']
+    extra = {}
+    with_driver = rng.random() < 0.5
+    if with_driver:
+        att.append('driver')
+    else:
+        extra['driver'] = do
+    opts = {'problem': po}
+    if with_driver:
+        opts['driver'] = do
+    if t == 'sellar_gs' and rng.random() < 0.6:
+        so = {f: rng.random() < 0.5 for f in SYSTEM_FLAGS}
+        no = {'record_inputs': not so['record_inputs'], 'record_outputs': not so['record_outputs'],
+              'record_solver_residuals': not so['record_residuals']}
+        so['includes'] = rng.choice([['*'], ['y?'], ['d1.*']])
+        no['includes'] = rng.choice([['*'], ['d2.*'], ['*y1']])
+        att += ['g', 'g.nl']
+        opts['g'] = so
+        opts['g.nl'] = no
+    pts = TEMPLATES[t]
+    att = sorted(att, key=pts.index)
+    if with_driver and rng.random() < 0.5:
+        drv = {'kind': 'doe', 'levels': 2}
+        runs = [['run_driver', None, True], ['record', 'final', None]]
+    else:
+        drv = {'kind': 'none'}
+        runs = [['run_model', None, True], ['record', 'final', None]]
+        if with_driver:
+            runs.insert(1, ['run_driver', 'drv', True])
+    return {'template': t, 'driver': drv, 'attach': att, 'opts': opts, 'extra_opts': extra, 'runs': runs,
+            'nl_iter': 2, 'init': [rng.choice([-1.0, 0.5, 2.0]), rng.choice([1.5, -0.5])],
+            'pre_load': rng.random() < 0.5, 'viewer': False, 'idx_problem': False,
+            'scaling': _scaling(rng, t) if rng.random() < 0.3 else {}, 'qseed': rng.randrange(1 << 30),
+            'family': 'cross_owner'}
+
+
 def _opts(rng, kind):
     flags = {'driver': DRIVER_FLAGS, 'problem': DRIVER_FLAGS, 'system': SYSTEM_FLAGS,
              'solver': SOLVER_FLAGS}[kind]
@@ -359,6 +419,9 @@ class C17(Property):
             "* and ?, record_* flags) x run sequence in {run_model x1..3 with case_prefix / "
             "reset_iter_counts=False / Problem.record, DOEDriver full factorial 4..16 cases, "
             "ScipyOptimizeDriver SLSQP up to 30 iterations} x CaseReader pre_load in {True, False}. "
+            "A targeted family heads the stream: driver and Problem (shared selection code) get complementary "
+            "record_* flags and different patterns, the driver's options being set also when it has no recorder, "
+            "plus a group/solver pair with complementary flags. "
             "Non-trivial: at least two cases recorded from at least two attachment points or a driver "
             "with >= 10 iterations; distinct by canonical case encoding.")
     assumptions = [
@@ -438,8 +501,9 @@ class C17(Property):
         return cfg
 
     def cases(self, rng, tier):
-        n = 18 if tier == 'quick' else 450
-        out = []
+        n = 12 if tier == 'quick' else 400
+        # targeted family first: options per recorder owner (driver / problem / system / solver)
+        out = [_cross_owner_case(rng, j) for j in range(6 if tier == 'quick' else 60)]
         for k in range(n):
             r = rng.random()
             if r < 0.36:
@@ -470,6 +534,9 @@ class C17(Property):
             if drv['kind'] != 'none' and rng.random() < 0.7 and 'driver' not in att:
                 att = ['driver'] + att
             opts = {a: _opts(rng, attach_kind(a)) for a in att}
+            extra = {}
+            if has_driver and 'driver' not in att and rng.random() < 0.5:
+                extra['driver'] = _opts(rng, 'driver')      # options on a driver without recorder
             # run sequence
             if drv['kind'] == 'none':
                 style = rng.choice(['one', 'one', 'prefix2', 'noreset', 'prefix3', 'dup'])
@@ -497,7 +564,8 @@ class C17(Property):
                     runs.insert(1, ['record', 'fin', None])
                 if rng.random() < 0.3:
                     runs.append(['record', 'final2', None])
-            out.append({'template': t, 'driver': drv, 'attach': att, 'opts': opts, 'runs': runs,
+            out.append({'template': t, 'driver': drv, 'attach': att, 'opts': opts, 'extra_opts': extra,
+                        'runs': runs,
                         'nl_iter': rng.choice([2, 3, 4]),
                         'init': [rng.choice([-1.0, 0.5, 1.0, 2.0, -1.5]), rng.choice([1.5, -0.5, 0.25, 2.0])],
                         'pre_load': rng.random() < 0.5, 'viewer': rng.random() < 0.15,
@@ -533,6 +601,10 @@ class C17(Property):
             r.add_recorder(rec)
             for k, v in case['opts'][a].items():
                 r.recording_options[k] = v
+        # options of owners that have no recorder of their own (they must not influence anything)
+        for a, o in (case.get('extra_opts') or {}).items():
+            for k, v in o.items():
+                requester(p, a).recording_options[k] = v
         p.setup()
         for k, v in inits.items():
             p.set_val(k, v)
@@ -918,6 +990,8 @@ class C17(Property):
         if 'log' not in impl:
             return False
         atts = {e['att'] for e in impl['log']}
+        if case.get('family') == 'cross_owner' and len(impl['log']) >= 1:
+            return True
         return (len(impl['log']) >= 2 and len(atts) >= 2) or len(impl['log']) >= 10
 
     def bucket(self, case, impl):
@@ -943,6 +1017,14 @@ class C17(Property):
             b.append('open_error')
         if impl.get('run_error'):
             b.append('run_raised')
+        if case.get('family'):
+            b.append('family=' + case['family'])
+        if case.get('extra_opts'):
+            b.append('options_on_owner_without_recorder')
+        for a in case['attach']:
+            for k, v in case['opts'][a].items():
+                if isinstance(v, bool):
+                    b.append('%s.%s=%s' % (attach_kind(a), k, v))
         sc = case.get('scaling') or {}
         if sc:
             b.append('scaled_outputs')
